@@ -17,6 +17,7 @@ import (
 	"runtime/debug"
 	"sort"
 	"strings"
+	"sync"
 	"testing"
 	"testing/synctest"
 	"time"
@@ -81,8 +82,13 @@ func bubble(e *simcore.Env, f func(cleanup func(func()))) {
 }
 
 // tick advances the fake clock by at least 1ms (tape-chosen) so that revisions are distinct.
-func tick(e *simcore.Env, tp *simcore.Tape) {
-	d := time.Millisecond + []time.Duration{0, time.Microsecond, 7 * time.Millisecond, time.Second, 3 * time.Hour}[tp.Weighted(6, 2, 2, 1, 1)]
+func tick(e *simcore.Env, tp *simcore.Tape) { sleep(e, tickDur(tp)) }
+
+func tickDur(tp *simcore.Tape) time.Duration {
+	return time.Millisecond + []time.Duration{0, time.Microsecond, 7 * time.Millisecond, time.Second, 3 * time.Hour}[tp.Weighted(6, 2, 2, 1, 1)]
+}
+
+func sleep(e *simcore.Env, d time.Duration) {
 	time.Sleep(d)
 	synctest.Wait()
 	e.AddSim(d)
@@ -227,6 +233,7 @@ type simQueue struct {
 	// failBroadcast: topic -> Broadcast reports an error for the unreachable nodes instead of skipping them
 	failBroadcast map[string]bool
 	delivered     map[string]int // topic -> messages delivered (diagnostics/probes)
+	mu            sync.Mutex     // the read-repair goroutine delivers concurrently with the client operation
 }
 
 func (q *simQueue) Name() string                              { return "sim-queue" }
@@ -256,7 +263,16 @@ func (q *simQueue) deliver(topic bus.Topic, nodeName string, m bus.Message) *sim
 	if err = proto.Unmarshal(body, req); err != nil {
 		return &simFuture{err: err}
 	}
+	q.mu.Lock()
 	q.delivered[topic.String()]++
+	q.mu.Unlock()
+	if topic != data.TopicPropertyRepair {
+		// Requests of client operations are delivered at quiescent points: the index writer's background
+		// goroutines (persister, merger) of every node have settled before the next request is applied, so
+		// the segment layout - and with it the order of search hits - is a function of the history alone.
+		// (Read-repair requests come from the liaison's repair goroutine and are delivered as they come.)
+		synctest.Wait()
+	}
 	resp := l.Rev(context.Background(), bus.NewMessage(m.ID(), req))
 	switch d := resp.Data().(type) {
 	case nil:
@@ -368,11 +384,16 @@ type lww struct {
 	// classSuffix narrows the violation class while a fault-specific check runs; oneClass (long-history) collapses all classes
 	classSuffix string
 	oneClass    string
+	notesOnly   bool // long-history: observed answers are notes, the canonical history is the program
 }
 
 func (w *lww) hist(format string, a ...any) {
 	s := fmt.Sprintf(format, a...)
 	w.history = append(w.history, s)
+	if w.notesOnly {
+		w.e.Note("%s", s)
+		return
+	}
 	w.e.Event("%s", s)
 }
 
@@ -859,7 +880,9 @@ func runLWW(e *simcore.Env, tp *simcore.Tape) {
 				}
 			}
 		}
+		cl.q.mu.Lock()
 		e.ProbeN("reach.read_repair_delivered", cl.q.delivered[data.TopicPropertyRepair.String()])
+		cl.q.mu.Unlock()
 		writes := 0
 		for _, mv := range w.model {
 			writes += mv.ver
@@ -871,50 +894,72 @@ func runLWW(e *simcore.Env, tp *simcore.Tape) {
 	})
 }
 
-// runLongHistory: one key, many revisions, then queries (every revision is a document of its own on the data node).
+// runLongHistory: one key collects 125-150 revisions (every revision is a document of its own on the data
+// node until its tombstone expires, 7 days by default), queried after every apply once it has 90.
+// What the data node returns first once a key has many documents depends on the index's background
+// merges, which are not under the simulator's control: the canonical history of this scenario is therefore
+// the program (drawn from the tape up front), the observed answers are kept as notes only, and the program
+// is long enough that a dependence on the number of revisions shows for any tape.
 func runLongHistory(e *simcore.Env, tp *simcore.Tape) {
 	bubble(e, func(cleanup func(func())) {
-		nNodes := tp.Range(1, 2)
-		nApplies := 60 + tp.Choose(60)
+		type step struct {
+			tagKeys  []string
+			d        time.Duration
+			strategy propertyv1.ApplyRequest_Strategy
+			del      bool
+		}
+		nNodes := 1 + tp.Weighted(3, 1)
+		nApplies := 125 + tp.Choose(26)
+		var prog []step
+		for i := 0; i < nApplies; i++ {
+			st := step{d: tickDur(tp)}
+			if tp.Bool(1, 40) {
+				st.del = true
+			} else {
+				st.strategy = []propertyv1.ApplyRequest_Strategy{propertyv1.ApplyRequest_STRATEGY_MERGE, propertyv1.ApplyRequest_STRATEGY_REPLACE}[tp.Weighted(5, 1)]
+				st.tagKeys = []string{"ord"}
+				for _, tk := range tagKeyPool {
+					if tp.Bool(1, 4) {
+						st.tagKeys = append(st.tagKeys, tk)
+					}
+				}
+			}
+			prog = append(prog, st)
+			e.Event("step %d: +%v del=%v %v %v", i, st.d, st.del, st.strategy, st.tagKeys)
+		}
+		e.Event("cluster nodes=%d", nNodes)
 		cl := newCluster(e, cleanup, nNodes, nNodes, 1, []string{"p0"})
 		w := &lww{e: e, tp: tp, q: cl.q, srv: cl.srv, model: map[mkey]*mval{}, obs: map[mkey]*observed{}, names: []string{"p0"}, nodes: cl.nodes}
 		w.oneClass = "history-of-one-key-diverges-from-map"
+		w.notesOnly = true
 		w.keys = []mkey{{"p0", "k0"}, {"p0", "k1"}}
-		w.hist("cluster nodes=%d applies=%d", nNodes, nApplies)
+		w.hist("cluster nodes=%d steps=%d", nNodes, len(prog))
 		ok := true
 		k := w.keys[0]
-		for i := 0; i < nApplies && ok; i++ {
-			tick(e, tp)
+		for _, st := range prog {
+			if !ok {
+				break
+			}
+			sleep(e, st.d)
 			e.Step()
-			if tp.Bool(1, 25) {
+			if st.del {
 				ok = w.del(k.name, k.id)
 				continue
 			}
-			strategy := []propertyv1.ApplyRequest_Strategy{propertyv1.ApplyRequest_STRATEGY_MERGE, propertyv1.ApplyRequest_STRATEGY_REPLACE}[tp.Weighted(5, 1)]
-			tagKeys := []string{"ord"}
-			for _, tk := range tagKeyPool {
-				if tp.Bool(1, 4) {
-					tagKeys = append(tagKeys, tk)
-				}
-			}
-			ok = w.apply(k, strategy, tagKeys)
-			if ok && tp.Bool(1, 10) {
+			ok = w.apply(k, st.strategy, st.tagKeys)
+			if ok && w.model[k].ver >= 90 {
 				ok = w.query(k.name, []string{k.id}, 0, 1)
 			}
 		}
 		if ok {
-			tick(e, tp)
-			ok = w.query("p0", []string{"k0"}, 0, 1) && w.query("p0", nil, 0, 1) && w.query("p0", nil, 1, 1)
+			sleep(e, time.Millisecond)
+			ok = w.query("p0", nil, 0, 1) && w.query("p0", nil, 1, 1)
 		}
 		if w.model[k] != nil && w.model[k].ver >= 100 {
 			e.Probe("reach.key_with_100_revisions")
 		}
 		e.Nontrivial()
-		h := w.history
-		if len(h) > 12 {
-			h = append(append([]string{}, h[:4]...), append([]string{fmt.Sprintf("... %d more ...", len(h)-10)}, h[len(h)-6:]...)...)
-		}
-		e.SetSample(map[string]any{"history": h})
+		e.SetSample(map[string]any{"history": w.tail()})
 	})
 }
 
